@@ -44,3 +44,10 @@ add("C20", "exploration",
     "either), plus linearity and start value; thorough adds NUMBA_BOUNDSCHECK=1 (numba's bounds sanitizer).",
     "width of the trapezoid zone after a disturbance is not fixed by the property; fractions.Fraction arithmetic trusted",
     "per-step trace monitor over executions + exhaustive enumeration of the finite stencil table + bounds-checked JIT", "4/C20")
+add("C07", "exploration",
+    "Hundreds of thousands to tens of millions of (w,d) points per run across all regimes, scalars, small calls, "
+    "dense sweeps across the two internal switches, and spectra with per-point depths; every returned k is judged "
+    "by an independent residual, asymptotes, cg against the analytic dw/dk, monotonicity on sweeps. One recorded "
+    "known finding (sub-1e-6 non-monotonicity in d at kd=5). Held-on-K-executions.",
+    "g=9.81; oracle true_k by bisection; d-monotonicity required only above 1e-6 relative",
+    "runtime residual monitors over seeded and adversarial sweeps + bounds-checked JIT in thorough", "4/C07")
